@@ -18,7 +18,7 @@ typedef struct S_ZTSN3ipr4impl12_GLOBAL__N_114std_identifierE word_t;
 static efactory_t* FAC; static nfactory_t* NFAC;
 /* pools are scalars selected by explicit conditionals, and reserved words are addressed by the constant index clang's evaluation
    of the table gives (checked below): pointers with constant offsets keep cbmc's dereferencing cheap */
-static string_t *S0, *S1, *S4, *S5; static word_t *R0;
+static string_t *S0, *S1, *S4, *S5, *S6;      /* S6: a String node that is NOT this Lexicon's, spelled like S4 (any ipr::String may be handed to the constructors) */ static word_t *R0;
 static string_t* STRS(int i) { return i == 0 ? S0 : i == 1 ? S1 : i == 2 ? S4 : S5; }
 static _Bool spelled(word_t* w, const unsigned char* p, unsigned long n) { sv_t t = w->f_str.f_txt; if (t.f__M_len != n) return 0; for (unsigned long j = 0; j < 24; j++) if (j < n && t.f__M_str[j] != p[j]) return 0; return 1; }
 static type_t* TY[NPOOL]; static expr_t* EX[NPOOL]; static name_t* NM[NPOOL]; static ident_t* ID[NPOOL]; static ident_t* ID_DEFAULT; static template_t* TP[NPOOL]; static elist_t* EL[NPOOL];
@@ -29,7 +29,7 @@ static int pick(int n) { int i = nondet_int(); __CPROVER_assume(0 <= i && i < n)
 #define IDENT_OF_WORD(w) (&(w)->__b0.__b0)                        /* std_identifier -> impl::Node<Identifier> -> ipr::Identifier */
 #define LOGO_OF_WORD(w) (&(w)->__b1)                              /* std_identifier -> ipr::Logogram */
 sv_t @{virt:string_characters}(string_t* self)
-{ sv_t v; v.f__M_len = 1; v.f__M_str = self == S4 ? sp_a : sp_b; __CPROVER_assert(self == S4 || self == S5, "characters() of an unknown string"); return v; }
+{ sv_t v; v.f__M_len = 1; v.f__M_str = (self == S4 || self == S6) ? sp_a : sp_b; __CPROVER_assert(self == S4 || self == S5 || self == S6, "characters() of an unknown string"); return v; }
 /* contract of name_factory::get_string = string_pool::intern (C03): the String node of that spelling */
 string_t* @{get_string}(nfactory_t* self, sv_t w)
 { for (int i = 0; i < NSTR; i++) if (sv_equal(w, WV[i])) return STRS(i); __CPROVER_assert(0, "get_string of a word outside the harness pool"); return 0; }
@@ -54,7 +54,7 @@ static void pools(void)
   R0 = &WORDS[RW_INDEX];
   __CPROVER_assert(spelled(R0, sp_rw, sizeof sp_rw), "the reserved word of this run is at the index read from the table");
   for (int k = 0; k < (int)(sizeof(WORDS) / sizeof(WORDS[0])); k++) { sv_t t = WORDS[k].f_str.f_txt; __CPROVER_assert(t.f__M_len >= 1 && (t.f__M_len > 1 || (t.f__M_str[0] != 'a' && t.f__M_str[0] != 'b')), "neither the empty word nor a / b is reserved"); }
-  S0 = STRING_OF_WORD(R0); S1 = @{empty_string}(); S4 = NEWZ(string_t); S5 = NEWZ(string_t);
+  S0 = STRING_OF_WORD(R0); S1 = @{empty_string}(); S4 = NEWZ(string_t); S5 = NEWZ(string_t); S6 = NEWZ(string_t);
   WV[0] = (sv_t){sizeof sp_rw, sp_rw}; WV[1] = (sv_t){0, sp_a}; WV[2] = (sv_t){1, sp_a}; WV[3] = (sv_t){1, sp_b};
   for (int i = 0; i < NPOOL; i++) { TY[i] = NEWZ(type_t); EX[i] = NEWZ(expr_t); NM[i] = NEWZ(name_t); ID[i] = NEWZ(ident_t); TP[i] = NEWZ(template_t); EL[i] = NEWZ(elist_t); }
   word_t* d = &WORDS[@{word:default}]; __CPROVER_assert(spelled(d, sp_default, 7), "default is a reserved word at the index read from the table"); ID_DEFAULT = IDENT_OF_WORD(d);
